@@ -1,5 +1,140 @@
 import Ptn.C19.Model
-/-! Line-protocol handler for the C19 model (core Lean only). -/
+/-! Line-protocol handler for the C19 model (core Lean only).
+
+  grid <rows> <cols>                → `i_j-k_l,…`              pair list of `_find_nn_pairs`
+  mps <n> <r> <p0> … <p(n-1)>       → `id:parent:children:legs;…|L:…|R:…`   (`from_tensor_list`)
+  leftmost <n> <p0> … <p(n-1)>      → same format (`from_tensor_list_leftmost_node_is_root`)
+  ising <id:parent> …               → `coeff,sym,siteOp-siteOp;…`   tokens in dict (insertion) order
+  isinggrid <rows> <cols>           → same, sites printed `i_j`
+  qrshape <id:parent> … | <ld_0> …  → `a,b,…`  (`ld_k` = leg of the node with identifier `k`)
+  fromtensor <id:parent> … | <ld…>  → `id:parent:children:legs;…`  legs `b<p>.<c>` or axis numbers
+-/
 namespace Ptn.C19
-def handle (args : List String) : String := "bad-op"
+
+def natList (l : List Nat) : String := ",".intercalate (l.map toString)
+
+def parseNats (l : List String) : Option (List Nat) := l.mapM String.toNat?
+
+def showCell (c : Cell) : String := s!"{c.1}_{c.2}"
+
+def showMNode (x : MNode) : String :=
+  let p := match x.parent with
+    | none => "-"
+    | some q => toString q
+  s!"{x.id}:{p}:{natList x.children}:{natList x.legs}"
+
+def showMPT : Option MPT → String
+  | none => "none"
+  | some st => ";".intercalate (st.nodes.map showMNode) ++ s!"|L:{natList st.left}|R:{natList st.right}"
+
+def showSym : Sym → String
+  | .extMagn => "g"
+  | .coupling => "J"
+
+def showOp : Op → String
+  | .A => "A"
+  | .B => "B"
+
+def showTerm {α : Type} (f : α → String) (t : Term α) : String :=
+  s!"{t.coeff},{showSym t.sym}," ++ "-".intercalate (t.ops.map fun so => f so.1 ++ showOp so.2)
+
+/-- tokens `id:parent` (parent `-1` for the root, which must come first; every other parent must have
+    been listed before; identifiers distinct) -/
+def parseTree (toks : List String) : Option (List (Nat × Option Nat)) := do
+  let items ← toks.mapM fun tok =>
+    match tok.splitOn ":" with
+    | [a, b] =>
+      match a.toNat?, b.toInt? with
+      | some i, some p => if p = -1 then some (i, none) else if 0 ≤ p then some (i, some p.toNat) else none
+      | _, _ => none
+    | _ => none
+  match items with
+  | [] => none
+  | (_, some _) :: _ => none
+  | (r, none) :: rest =>
+    let rec check (seen : List Nat) : List (Nat × Option Nat) → Bool
+      | [] => true
+      | (i, some p) :: tl => !seen.contains i && seen.contains p && check (i :: seen) tl
+      | (_, none) :: _ => false
+    if check [r] rest then some items else none
+
+def flatOf (items : List (Nat × Option Nat)) : List (Nat × List Nat) :=
+  items.map fun it => (it.1, (items.filter fun c => c.2 == some it.1).map (·.1))
+
+def treeOf (items : List (Nat × Option Nat)) : Nat → Nat → RTree
+  | 0, i => .node i []
+  | fuel + 1, i => .node i (((items.filter fun c => c.2 == some i).map (·.1)).map (treeOf items fuel))
+
+def showLeg : Leg → String
+  | .ax k => toString k
+  | .bond p c => s!"b{p}.{c}"
+
+def showFNode (x : FNode) : String :=
+  let p := match x.parent with
+    | none => "-"
+    | some q => toString q
+  s!"{x.id}:{p}:{natList x.children}:" ++ ",".intercalate (x.legs.map showLeg)
+
+def splitBar (l : List String) : Option (List String × List String) :=
+  match l.span (· ≠ "|") with
+  | (a, "|" :: b) => some (a, b)
+  | _ => none
+
+/-- leg dictionary: the `k`-th number is the leg of the node with identifier `k`; must be a
+    permutation of `0 … n-1` over identifiers `0 … n-1`. -/
+def parseLegDict (items : List (Nat × Option Nat)) (ld : List Nat) : Option (Nat → Nat) :=
+  let n := items.length
+  if ld.length = n ∧ (List.range n).all (fun k => ld.contains k) ∧ items.all (fun it => it.1 < n)
+  then some fun i => ld.getD i 0 else none
+
+def handle (args : List String) : String :=
+  match args with
+  | ["grid", a, b] =>
+    match a.toNat?, b.toNat? with
+    | some rows, some cols =>
+      ",".intercalate ((nnPairs rows cols).map fun pr => showCell pr.1 ++ "-" ++ showCell pr.2)
+    | _, _ => "bad-op"
+  | ["isinggrid", a, b] =>
+    match a.toNat?, b.toNat? with
+    | some rows, some cols => ";".intercalate ((isingGrid rows cols).map (showTerm showCell))
+    | _, _ => "bad-op"
+  | "mps" :: a :: b :: ps =>
+    match a.toNat?, b.toNat?, parseNats ps with
+    | some n, some r, some pl =>
+      if pl.length ≠ n then "bad-op" else showMPT (fromTensorList n r (fun i => pl.getD i 0))
+    | _, _, _ => "bad-op"
+  | "leftmost" :: a :: ps =>
+    match a.toNat?, parseNats ps with
+    | some n, some pl =>
+      if pl.length ≠ n then "bad-op" else showMPT (leftmost n (fun i => pl.getD i 0))
+    | _, _ => "bad-op"
+  | "ising" :: toks =>
+    match parseTree toks with
+    | some items => ";".intercalate ((isingTree (flatOf items)).map (showTerm toString))
+    | none => "bad-op"
+  | "qrshape" :: rest =>
+    match splitBar rest with
+    | some (toks, lds) =>
+      match parseTree toks, parseNats lds with
+      | some items, some ldl =>
+        match parseLegDict items ldl, items with
+        | some ld, (r, _) :: _ =>
+          let half := items.length
+          natList (qrShape (fun i => [ld i, half + ld i]) (treeOf items items.length r) [])
+        | _, _ => "bad-op"
+      | _, _ => "bad-op"
+    | none => "bad-op"
+  | "fromtensor" :: rest =>
+    match splitBar rest with
+    | some (toks, lds) =>
+      match parseTree toks, parseNats lds with
+      | some items, some ldl =>
+        match parseLegDict items ldl, items with
+        | some ld, (r, _) :: _ =>
+          ";".intercalate ((fromTensor (treeOf items items.length r) ld).map showFNode)
+        | _, _ => "bad-op"
+      | _, _ => "bad-op"
+    | none => "bad-op"
+  | _ => "bad-op"
+
 end Ptn.C19
